@@ -111,7 +111,20 @@ fn run_local(case: &Case, out: &mut Out) {
     out.cur = k;
     match ev[0].atom() {
       "sub" => {
-        let u = pipeline.clone().actual_subscribe(Probe(log.clone()));
+        // field `closure`: subscribe the way users do — `.on_error(f).on_complete(g).subscribe(h)`
+        // (OnErrorObserver, OnCompleteObserver, ObserverItem) instead of a hand-written observer
+        let u = if case.has("closure") {
+          let (l1, l2, l3) = (log.clone(), log.clone(), log.clone());
+          BoxSubscription::new(
+            pipeline
+              .clone()
+              .on_error(move |e| l1.borrow_mut().push(Notif::Error(e)))
+              .on_complete(move || l2.borrow_mut().push(Notif::Complete))
+              .subscribe(move |v| l3.borrow_mut().push(Notif::Next(v))),
+          )
+        } else {
+          pipeline.clone().actual_subscribe(Probe(log.clone()))
+        };
         sub = Some(u);
         let sfx = suffix(case, &exec);
         out.emit(k, fmt_log(drain(&log)) + &sfx);
@@ -174,7 +187,18 @@ fn run_threads(case: &Case, out: &mut Out) {
     out.cur = k;
     match ev[0].atom() {
       "sub" => {
-        let u = pipeline.clone().actual_subscribe(ProbeT(log.clone()));
+        let u = if case.has("closure") {
+          let (l1, l2, l3) = (log.clone(), log.clone(), log.clone());
+          BoxSubscriptionThreads::new(
+            pipeline
+              .clone()
+              .on_error(move |e| l1.lock().unwrap().push(Notif::Error(e)))
+              .on_complete(move || l2.lock().unwrap().push(Notif::Complete))
+              .subscribe(move |v| l3.lock().unwrap().push(Notif::Next(v))),
+          )
+        } else {
+          pipeline.clone().actual_subscribe(ProbeT(log.clone()))
+        };
         sub = Some(u);
         let sfx = suffix(case, &exec);
         out.emit(k, fmt_log(drain(&log)) + &sfx);
